@@ -45,6 +45,14 @@ def make_editor(schema, frags):
                 if not done_kinds:
                     yield ("impossible_condition_first", (Inline(x, body),) + sel)
                 done_kinds.add(schema.kind(x))
+        # ... a named fragment of the document (usually already spread, validly, somewhere else) spread once more where
+        # its type condition can never apply: validity is judged per spread, not per fragment definition
+        done_kinds = set()
+        for fname, fd_ in (frags.items() if hasattr(frags, "items") else []):
+            if schema.kind(fd_.on) and not (set(schema.possible_types(fd_.on)) & mine) and schema.kind(fd_.on) not in done_kinds:
+                yield ("impossible_condition", sel + (Spread(fname),))
+                yield ("impossible_condition_first", (Spread(fname),) + sel)
+                done_kinds.add(schema.kind(fd_.on))
         # 7 __typename removed from an abstract selection
         if kind in ("INTERFACE", "UNION") and not where.split("/")[-1].startswith("...on "):
             if any(isinstance(s, Field) and s.name == "__typename" for s in sel):
